@@ -26,7 +26,21 @@ let sfun name c = match name with
   | s -> failwith ("functor " ^ s)
 let rm = function "R" -> true | "C" -> false | s -> failwith ("orientation " ^ s)
 
-let parse line =
+let shape_expr shape a b c k size =
+  let r x = SXRef (n x) in
+  match shape with
+  | "1" -> SXAdd (r a, r b)
+  | "2" -> SXScale (z k, r a)
+  | "3" -> SXMul (r a, r b)
+  | "4" -> SXAdd (r a, SXScale (z k, r b))
+  | "5" -> SXUn (UAbs, r a)
+  | "6" -> SXAdd (SXUn (USqr, r a), r b)
+  | "7" -> SXUnit (size, n b, z k)
+  | "8" -> SXAdd (r a, SXScale (z_of_int (-1), r b))
+  | "9" -> SXAdd (SXAdd (r a, r b), r c)
+  | s -> failwith ("shape " ^ s)
+
+let parse st line =
   match List.filter (fun s -> s <> "") (String.split_on_char ' ' (String.trim line)) with
   | ["RESET"] -> CReset
   | ["NSV"; id; k] -> CNewSV (n id, n k)
@@ -51,6 +65,11 @@ let parse line =
   | ["MKF"; f; c; t; s] -> CMKFun (sfun f c, n t, n s)
   | ["MOP"; form; o; t; s] -> CMOp ((form = "noalias"), sop o, n t, n s)
   | ["MSCAL"; o; t; c] -> CMScal (sop o, n t, z c)
+  | ["XV"; form; o; t; shape; a; b; c; k] ->
+      let size = (match getv st (n t) with VS v -> v.sv_size | VD d -> nat_of_int (List.length d)) in
+      CXV ((form = "noalias"), sop o, n t, shape_expr shape a b c k size)
+  | ["XM"; form; o; t; orient; shape; a; b; k] ->
+      CXM ((form = "noalias"), sop o, n t, rm orient, shape_expr shape a b "0" k O)
   | _ -> failwith ("cannot parse: " ^ line)
 
 let els l = String.concat "" (List.map (fun (i, x) -> Printf.sprintf " %d:%s" (int_of_nat i) (string_of_z x)) l)
@@ -92,7 +111,7 @@ let () =
     while true do
       let line = input_line ic in
       if String.trim line = "" then print_newline () else begin
-        (match parse line with
+        (match parse !st line with
          | CReset -> st := st_empty; print_string "reset"
          | cmd ->
            let (st', (isv, id)) = run_cmd !fx !st cmd in
